@@ -18,9 +18,9 @@
 (*  P-pages34   pages with mode 3 / 4 keeps the contents of the pages (my reading:  *)
 (*              the modes exist to change access without wiping); zeroed contents   *)
 (*              are accepted as well;                                              *)
-(*  P-panicreg  the outer registers after a panic / out-of-gas exit of a host call  *)
-(*              are not compared (the machine state is discarded; the register      *)
-(*              discipline on panic is property C07);                               *)
+(*  P-oogreg    the outer registers after an out-of-gas exit of a host call are not *)
+(*              compared (the machine state is discarded); after a panic they must  *)
+(*              be the registers the call was entered with;                         *)
 (*  P-fault, P-jumpreg  inherited from PVM.tla for the inner run: page-fault        *)
 (*              address anywhere in the faulting access' page span; destination     *)
 (*              register of a panicking load_imm_jump(_ind) old or new;             *)
